@@ -1,0 +1,41 @@
+//go:build verif
+
+package cache
+
+// This file is only built with the "verif" build tag. It lets the external
+// verification harness (property C10) move the clock of one stored item and
+// wait for a lazy update to finish. It adds no behaviour to the plugin.
+
+import (
+	"time"
+
+	"github.com/miekg/dns"
+)
+
+// VerifC10Backdate makes the item stored under k look d older: storedTime and
+// the message's expirationTime move back by d. The stored message itself and
+// the backend's own expiration are not touched. Reports whether k is present.
+func (c *Cache) VerifC10Backdate(k string, d time.Duration) bool {
+	v, _, ok := c.backend.Get(key(k))
+	if !ok || v == nil {
+		return false
+	}
+	v.storedTime = v.storedTime.Add(-d)
+	v.expirationTime = v.expirationTime.Add(-d)
+	return true
+}
+
+// VerifC10Item returns the message the cache keeps under k (nil if absent).
+func (c *Cache) VerifC10Item(k string) *dns.Msg {
+	v, _, ok := c.backend.Get(key(k))
+	if !ok || v == nil {
+		return nil
+	}
+	return v.resp
+}
+
+// VerifC10LazyWait returns when no lazy update for k is in flight: it joins
+// the singleflight call doLazyUpdate started, if there is one.
+func (c *Cache) VerifC10LazyWait(k string) {
+	<-c.lazyUpdateSF.DoChan(k, func() (any, error) { return nil, nil })
+}
